@@ -90,7 +90,7 @@ func Gcd(f *Polynomial, g ...*Polynomial) (*Polynomial, error) {
 
 	switch len(g) {
 	case 0:
-		return f, nil
+		return f.Copy(), nil
 	case 1:
 		// Base case. Do computations below
 	default:
